@@ -20,6 +20,9 @@ from ..cfg import must_facts, holds, canon_fact
 from ..rules import settle_sites, check_settles, event_facts, node_calls, callers_of
 from ..mutate import mutate, remove_stmts, replace_expr, replace_stmt, parse_stmt, parse_expr
 from ..model import AnalysisError
+from ..x_syncnorm import normalized
+
+NORM_MODULES = ("tornado/locks.py", "tornado/queues.py", "tornado/gen.py", "tornado/concurrent.py", "tornado/ioloop.py", "tornado/platform/asyncio.py")
 from ..x_sync import in_cycle, check_none_tests, own_walk, guard_models, aug_delta, node_counts, method_call_on, container_uses, exit_states, own_find, own_settle_sites
 from .c34 import _while_to_if
 from .c33 import check_timeout_cb, _is_grant, _grant_target, _grant_value, _drop_done_test, _rename_attr, _cmp_op
@@ -646,6 +649,7 @@ def check_waiter_fifo(ck):
 
 
 def run(ck):
+    ck.repo = normalized(ck.repo, NORM_MODULES)  # alias / named-boolean / temporary / setter-helper normalisation (vt/x_syncnorm.py)
     ck.rule("C35.order", "each queue class pairs its _put/_get container operations according to its discipline (append/popleft, heappush/heappop, append/pop()); nothing else touches the item container")
     ck.rule("C35.full", "full() == (maxsize > 0 and qsize >= maxsize) for all small maxsize/qsize (body folded exhaustively); the bound is fixed")
     ck.rule("C35.expired", "_consume_expired() precedes every look at the getter/putter queues in *_nowait; it removes only heads whose future is done(), from both queues, with no other effect")
